@@ -78,7 +78,8 @@ CLAIMS = {
     'C12': ('abstract interpretation of every API command (add, update, delete, unknown) under (printing, shrinking disallowed): refusal is '
             'effect free, a replacement is dominated by new.containsRegion(old)=True on the id-matched slot; writer census '
             'of the region list and of region geometry fields; the may-shrink field is refreshed from the stored setting on every '
-            'path of the settings handler; the containment predicates themselves (all C17 rules)',
+            'path of the settings handler; the containment predicates themselves (all C17 rules); the event machine of the '
+            'print-activity flag (C11.R1 / R3 as premises: paused is still printing)',
             'soundness of containsRegion itself is C17; regions reachable only through the state list'),
     'C13': ('abstract interpretation of every API command and event: id-uniqueness guard, access check first, '
             'mutation/notification pairing on every path, payload shape agreement between notification and GET, one id relation '
@@ -88,7 +89,8 @@ CLAIMS = {
             'sent in order, streaming/no-match effect free) and of the motion handlers with exclusion disabled '
             '(no exclusion, tracked position equal to the firmware reference in both positioning modes); the retraction / '
             'E-register typestate machine with the @-command actions in its environment (nothing owed is lost through a disable); '
-            'the matching decision depends only on whether the configured pattern matched',
+            'the matching decision depends only on whether the configured pattern matched; the offline path (stream processor line '
+            'rules C20.R2-R6: what an @-command generates reaches the output) and the tracking / frame / tokeniser premises',
             'parameter pattern matching is a user regular expression (opaque); exit sequence itself is C03'),
     'C15': ('abstract interpretation of handleScriptHook for matching / other / symbolic script names x active x '
             'excluding: contributes the exit sequence as prefix exactly when required, closes the episode, otherwise no effect; the '
@@ -98,7 +100,8 @@ CLAIMS = {
     'C07': ('every synthesised command found on any abstract path (exit, retraction, firmware retract) and the merged '
             'deferred command: skeleton shape, distinct letters, and a per-word proof that the formatter cannot produce '
             'exponent notation (fixed-point spec, integer, or helper whose every return is guarded by a test for an exponent marker); '
-            'language inclusion (regex automata) of every command text the hooks can pass in the parameter-extraction regex of the firmware retract / recover commands',
+            'language inclusion (regex automata) of every command text the hooks can pass in the parameter-extraction regex of the firmware retract / recover commands; '
+            'writer census of the remembered command text spliced into them; string surgery on rendered numbers refused',
             'finiteness of the values is not decided'),
     'C08': ('conversion laws of AxisPosition as polynomial identities (round trips in both modes, firmware map, G92 law, '
             'homing), native arguments of the region tests, sibling agreement of G20/G21/G90/G91 over all axes and the feed '
